@@ -725,7 +725,7 @@ def build_design(insts, wa, wb, wirekinds=False):
             o = pyrtl.Output(n, 'o%d' % k)
             o <<= r
             res.append((None, n))
-        except (pyrtl.PyrtlError, pyrtl.PyrtlInternalError, IndexError, ValueError, TypeError, AttributeError) as e:
+        except Exception as e:      # whatever the call raises is the observation `raises`
             res.append((type(e).__name__, None))
         for cname, (obj, pristine) in containers.items():
             if [id(x) for x in obj] != [id(x) for x in pristine]:
@@ -988,6 +988,56 @@ def check_indices(ctx):
                                    % (m, n, src_item(it), got), rep)
 
 
+def eval_bins(ctx, exprs, bins, timeout=600):
+    """one coqc run (a single Eval returning a list of rows) per bin, in parallel; a bin that exceeds the
+    time limit (loaded machine) is split in two and retried, down to single instance expressions"""
+    import concurrent.futures
+    import coqrun
+
+    def go(args):
+        idxs, name = args
+        try:
+            r = coqrun.eval_shard(['[%s]' % '; '.join(exprs[i] for i in idxs)], IMPORTS, ctx.workdir, name, timeout)
+            return r[0]
+        except coqrun.CoqTimeout:
+            if len(idxs) <= 1:
+                raise
+            h = len(idxs) // 2
+            return go((idxs[:h], name + 'a')) + go((idxs[h:], name + 'b'))
+
+    os_makedirs(ctx.workdir)
+    with concurrent.futures.ThreadPoolExecutor(max_workers=14) as ex:
+        outs = list(ex.map(go, [(b, 'c06_%d' % k) for k, b in enumerate(bins)]))
+    return [row for o in outs for row in o]
+
+
+def os_makedirs(d):
+    import os
+    os.makedirs(d, exist_ok=True)
+
+
+def isolate_failure(ctx, job, model_rows, exc):
+    """the design holding all instances of `job` could not be built or simulated: run every instance in a
+    design of its own and report the ones that still fail, with the exception, as concrete inputs"""
+    culprits = 0
+    for k, inst in enumerate(job.insts):
+        sub = Job(job.tag, [inst], job.wa, job.wb, job.points, job.exhaustive)
+        try:
+            run_job(ctx, sub, [model_rows[k]] if model_rows is not None else None)
+        except Exception as e:
+            culprits += 1
+            sig = '%s:build-or-simulation-raises' % inst.name
+            ctx.spec_violation(sig, '%s: a design containing only `%s` (len(a)=%s len(b)=%s) cannot be built/simulated: '
+                               '%s: %s' % (sig, inst.src, job.wa, job.wb, type(e).__name__, str(e)[:300]),
+                               {'tier': ctx.tier, 'seed': ctx.seed, 'job': [job.tag, job.wa, job.wb],
+                                'instance': inst.name, 'python': inst.src, 'len_a': job.wa, 'len_b': job.wb,
+                                'exception': type(e).__name__, 'message': str(e)[:1000]})
+    if not culprits:
+        ctx.model_mismatch('design %s len(a)=%s len(b)=%s raised %s: %s with all instances together but not with any '
+                           'instance alone' % (job.tag, job.wa, job.wb, type(exc).__name__, str(exc)[:400]),
+                           {'job': [job.tag, job.wa, job.wb]})
+
+
 def run(ctx, only=None, only_inst=None):
     jobs = make_jobs(ctx, only)
     if only_inst is not None:
@@ -1006,7 +1056,7 @@ def run(ctx, only=None, only_inst=None):
                 c *= 1 + j.wb / 4.0
             costs.append(c + 60)   # + elaboration of the instance expression itself
     # pack consecutive expressions into bins of similar cost: one Eval (a list of rows) per bin
-    target = max(sum(costs) / 40.0, 1.0)
+    target = max(sum(costs) / (40.0 if ctx.tier == 'quick' else 160.0), 1.0)
     bins, cur, acc = [], [], 0.0
     for i, c in enumerate(costs):
         cur.append(i)
@@ -1017,16 +1067,18 @@ def run(ctx, only=None, only_inst=None):
     if cur:
         bins.append(cur)
     try:
-        res = ctx.coq_eval(['[%s]' % '; '.join(exprs[i] for i in b) for b in bins], IMPORTS, tag='c06',
-                           shard=1, jobs=14)
-        out = [row for r in res for row in r]
+        out = eval_bins(ctx, exprs, bins)
         if len(out) != len(exprs):
             raise RuntimeError('model returned %d rows for %d expressions' % (len(out), len(exprs)))
     except Exception as e:   # the model no longer evaluates: the search still runs
         out = None
         ctx.model_mismatch('Front model could not be evaluated: %s' % str(e)[-800:], {})
     for j, (lo, hi) in zip(jobs, spans):
-        run_job(ctx, j, out[lo:hi] if out is not None else None)
+        rows = out[lo:hi] if out is not None else None
+        try:
+            run_job(ctx, j, rows)
+        except Exception as e:      # one design cannot be built / simulated: isolate the instance, keep going
+            isolate_failure(ctx, j, rows, e)
         ctx.count('designs', j.tag)
     if only is None:
         try:
